@@ -1,6 +1,6 @@
 import RedisEmu.Exec
 import RedisEmu.Proofs.Random
-import RedisEmu.Proofs.GoArith
+import RedisEmu.Proofs.GoArithHash
 import RedisEmu.Proofs.AList
 import RedisEmu.Props.C02
 import Mathlib.Tactic.SplitIfs
@@ -272,5 +272,8 @@ theorem hrandfield_withvalues (h : List (Bytes × Bytes)) (bs : Buckets) (is : L
         obtain ⟨v, h1, h2⟩ := ih this
         exact ⟨v, by simp [alookup, hx, h1], List.mem_cons_of_mem _ h2⟩
   exact this h hfm
+
+/-- this property's part of what the translator delivered on this run -/
+theorem go_arith_translated_hash : ["fieldAddIntOverflowGuard"].all (Go.translated.contains ·) = true := by decide
 
 end RedisEmu
